@@ -48,9 +48,9 @@ META = dict(
          "copyModule_deep_fresh (every object reachable from the copy by any route, names included, is new with new "
          "list cell, dict cell and occurrence lists; nothing of the original heap is written) and "
          "copyModule_deep_frame (own mutations on either side never change the other side's view), "
-         "copyModule_deep_as_list (as_list() of the copy = as_list() of the original to every depth). PARTIAL: that the "
-         "copy.deepcopy/pickle copy shows the original's NAME view (as_dict/dump) at every depth is not proved on the heap "
-         "model (one object: pickle_roundtrip; nested: copy-preserves oracle); deepcopy()'s name view of nested groups is proved "
+         "copyModule_deep_as_list and copyModule_deep_views (as_list() resp. BOTH views — tokens, names in order with all "
+         "occurrences and positions, list-all names, nested results expanded — of the copy are those of the original, to "
+         "every depth). PARTIAL: deepcopy()'s name view of nested groups is proved "
          "only in the form `same occurrence lists` (deepcopy_names_shared); container tokens (list/tuple/dict holding "
          "groups, results.py:598-605) are not in the heap model: oracle only. "
          "from_dict: tree model of from_dict/as_dict (PPModel/Mod/PRFromDict.lean), "
@@ -111,6 +111,8 @@ THEOREMS = [
     "PP.PRHeap.copyModule_deep_fresh",
     "PP.PRHeap.copyModule_deep_frame",
     "PP.PRHeap.copyModule_deep_as_list",
+    "PP.PRHeap.copyModule_deep_views",
+    "PP.PRHeap.deepObjN_drel",
     "PP.PRHeap.deepObjN_rel",
     "PP.PRHeap.deepObjN_spec",
 ]
